@@ -154,6 +154,24 @@ def spaces(tier, seed):
             c.update({"ny": ny, "nx": nx, "crops": crops})
             big.append(c)
             i += 1
+    # ---- scale instances: 16-bit strips (420 columns, 320 rows), a 620-column 8-bit ssd line and a 1300-column
+    # 12-bit line, cropped far from the first column / row: a running sum kept along a line or a column in float32
+    # exceeds 2^24 before the tile and makes the tile depend on what lies before it
+    scale = []
+    wide = [[0, 300, 8, 120, 0], [1, 211, 7, 180, 1]]
+    tall = [[280, 0, 40, 12, 0], [150, 1, 160, 10, 1]]
+    for tail in (["wta"], ["wta", "vfit"]):
+        for method, w, sp, ny, nx, hi, offset, crops in (
+                ("sad", 3, 1, 8, 420, 65535, 0, wide), ("sad", 5, 2, 8, 420, 200, 65000, wide),
+                ("ssd", 3, 1, 8, 620, 255, 0, [[0, 500, 8, 120, 0], [1, 411, 7, 180, 1]]),
+                ("zncc", 3, 1, 320, 12, 65535, 0, tall), ("zncc", 5, 2, 320, 12, 200, 65000, tall),
+                ("zncc", 5, 1, 8, 1300, 60, 3500, [[0, 1100, 8, 200, 0], [1, 1001, 7, 280, 1]])):
+            # own counter: the cases of the other spaces keep the indices they had before this space existed
+            c = _case(900000 + len(scale), seed, method, tail, INTERVALS[0], 6, fixed=(w, sp), mask="none")
+            c.update({"ny": ny, "nx": nx, "crops": crops, "hi": hi, "offset": offset})
+            scale.append(c)
+    out.append({"name": "scale: 16-bit strips (420 columns, 320 rows), 620-column ssd line, 1300-column 12-bit line, "
+                        "tiles far from the first column / row", "level": 1, "cases": scale, "chunk": 1})
     out.append({"name": "images larger than the 100-pixel processing blocks (44x230, 120x50)", "level": 1,
                 "cases": big, "chunk": 1})
     out.append({"name": "12-bit radiometry (full range and bright weakly textured), zncc / sad / census without cbca",
